@@ -97,7 +97,8 @@ def auto_justify(site):
         return "sum of two 64-bit (or wider) lengths / counts / positions: each is far below 2^63 (counts < 2^31 by the property's quantifier, lengths bounded by memory)"
     if k in ("assert:Overflow(Shl)", "assert:Overflow(Shr)") and len(ops) == 2:
         cs = _consts_of(ops[1])
-        if cs is not None and all(0 <= c < 32 for c in cs):
+        width = {"u8": 8, "i8": 8, "u16": 16, "i16": 16, "u32": 32, "i32": 32}.get(site.get("ty"), 64 if site.get("ty") in ("u64", "i64", "usize", "isize") else 128 if site.get("ty") in ("u128", "i128") else 32)
+        if cs is not None and all(0 <= c < width for c in cs):
             return "shift by a constant smaller than the bit width of the operand"
     if k in ("assert:DivisionByZero", "assert:RemainderByZero"):
         from .origin import walk
